@@ -181,9 +181,13 @@ def check_export_forms(ctx, key, is_private, orig_numbers, jwk, rep, extra):
 def given_members_returned(ctx, jwk, extra):
     """importing a JWK then exporting it returns the members that were given"""
     j = J.load()
-    for private in (True, False):
+    forms = [(True, jwk), (False, gen.public_jwk(jwk))]
+    if jwk["kty"] == "RSA" and "p" in jwk:
+        # the short private form RFC 7518 6.3.2 allows (n, e, d without the CRT members): what is given is what comes back
+        forms.append((True, {k: v for k, v in jwk.items() if k not in ("p", "q", "dp", "dq", "qi", "oth")}))
+    for private, base_form in forms:
         ctx.ev()
-        src = {**(jwk if private else gen.public_jwk(jwk)), **(extra or {})}
+        src = {**base_form, **(extra or {})}
         members = list(src.items())
         ctx.rng.shuffle(members)
         src = dict(members)
@@ -206,6 +210,13 @@ def given_members_returned(ctx, jwk, extra):
         ctx.nontrivial(("identity", src))
         if not out.ok or out.value != src:
             ctx.violation("jwk-members-not-returned", f"as_dict() of an imported JWK returns {out.value if out.ok else out!r}, given {src!r}"[:500], case)
+        if private and jwk["kty"] != "oct":
+            for via, f in (("as_dict(private=True)", lambda: k.value.as_dict(private=True)), ("KeySet.as_dict(private=True)", lambda: j.KeySet([j.JWKRegistry.import_key(copy.deepcopy(src))]).as_dict(private=True)["keys"][0])):
+                o2 = call(f)
+                ctx.count("jwk_identity")
+                want = src if "kid" in src or not via.startswith("KeySet") else {**src, "kid": (o2.value or {}).get("kid") if o2.ok else None}
+                if not o2.ok or o2.value != want:
+                    ctx.violation("jwk-members-not-returned", f"{via} of an imported JWK returns members {sorted(o2.value) if o2.ok else o2!r}, given {sorted(src)}"[:500], case)
         # exporting with additional parameters (as KeySet.as_dict(**params) does) must not change what the key exports afterwards
         kk = k.value
         call(kk.as_dict, custom="hi")
@@ -454,6 +465,28 @@ def check_malformed(ctx, jwk, rng):
         if o.ok:
             cls_name = name.rsplit("-True", 1)[0].rsplit("-False", 1)[0]
             ctx.violation(f"malformed-imported:{jwk['kty']}:{cls_name}", f"malformed JWK ({name}) was imported: {({k: (v if len(str(v)) < 40 else str(v)[:40]) for k, v in d.items()})!r}", case)
+        # the same members arriving in two parts: some in the JWK, the others through parameters= (what is imported is still that JWK)
+        non_material = [m for m in d if m in ("use", "key_ops", "alg", "kid", "x5u", "x5c", "x5t", "x5t#S256")]
+        if non_material and not name.startswith("kty-") and isinstance(d.get("kty"), str):
+            for moved in ([non_material[-1]], non_material[:1], non_material):
+                rest = {k_: v for k_, v in d.items() if k_ not in moved}
+                params = {k_: copy.deepcopy(d[k_]) for k_ in moved}
+                for via, f in (("JWKRegistry.import_key(jwk, parameters=)", lambda: j.JWKRegistry.import_key(copy.deepcopy(rest), parameters=copy.deepcopy(params))),
+                               (f"{jwk['kty']}Key.import_key(jwk, parameters)", lambda: K.cls_of(jwk["kty"]).import_key(copy.deepcopy(rest), copy.deepcopy(params))),
+                               ("KeySet.import_key_set(..., parameters=)", lambda: j.KeySet.import_key_set({"keys": [copy.deepcopy(rest)]}, parameters=copy.deepcopy(params)))):
+                    o3 = call(f)
+                    ctx.count("malformed_offered")
+                    ctx.count("malformed_split_over_parameters")
+                    if o3.ok:
+                        cls_name = name.rsplit("-True", 1)[0].rsplit("-False", 1)[0]
+                        ctx.violation(f"malformed-imported:{jwk['kty']}:{cls_name}", f"malformed JWK ({name}) was imported through {via} with {sorted(moved)} handed over as parameters", {**case, "parameters": params, "via": via})
+        # material members handed over as parameters of the wrong type
+        if name == "kty-unknown":
+            for pm, pv in (("x", 5), ("n", ["a"]), ("k", None), ("d", 7), ("crv", 1)):
+                o4 = call(j.JWKRegistry.import_key, copy.deepcopy(jwk), parameters={pm: pv})
+                ctx.count("malformed_offered")
+                if o4.ok and pm in jwk:
+                    ctx.violation(f"malformed-imported:{jwk['kty']}:retyped-{pm}-through-parameters", f"a JWK was imported with parameters={{{pm!r}: {pv!r}}}", {"jwk": jwk, "parameters": {pm: pv}})
         # also through the key class itself (kty is implied there)
         if not name.startswith("kty-"):
             o2 = call(K.cls_of(jwk["kty"]).import_key, copy.deepcopy(d))
